@@ -117,6 +117,11 @@ inline void dump_handle_info(const MEDDLY::node_headers &NH, long size)
 // ******************************************************************
 
 const size_t START_SIZE = 512;
+#ifdef MEDDLY_VERIF
+// K2: starting size becomes a knob (0 means the shipped value)
+#define START_SIZE \
+    (MEDDLY::verif::handle_start ? MEDDLY::verif::handle_start : size_t(512))
+#endif
 // const size_t MAX_ADD = 65536;
 const size_t MAX_ADD = 16777216;
 
@@ -313,6 +318,19 @@ MEDDLY::node_handle MEDDLY::node_headers::getFreeNodeHandle()
         std::cerr << "Forest " << parent.FID()
             << " using recycled handle " << found << std::endl;
 #endif
+#ifdef MEDDLY_VERIF
+        MEDDLY_VERIF_PROBE(P_HANDLE_REUSED);
+        if (verif::report) {
+            // A handle handed out again must be inactive and uncached
+            if (!isDeleted(found)) {
+                verif::report("reused handle is active", found, 0);
+            }
+            if (getNodeCacheCount(found)) {
+                verif::report("reused handle has cache count", found,
+                    long(getNodeCacheCount(found)));
+            }
+        }
+#endif
         a_freed--;
         return found;
     }
@@ -393,6 +411,9 @@ void MEDDLY::node_headers::recycleNodeHandle(node_handle p)
 
     mstats.decMemUsed(h_bits/8);
     a_freed++;
+#ifdef MEDDLY_VERIF
+    MEDDLY_VERIF_PROBE(P_HANDLE_RECYCLED);
+#endif
 
     // Determine which list to add this into,
     // and add it there
@@ -409,6 +430,9 @@ void MEDDLY::node_headers::recycleNodeHandle(node_handle p)
         while (a_last && isDeleted(a_last) && (0==getNodeCacheCount(a_last))) {
             a_last--;
             a_freed--;
+#ifdef MEDDLY_VERIF
+            MEDDLY_VERIF_PROBE(P_HANDLE_COLLAPSE);
+#endif
         }
 
 #ifdef DEBUG_HANDLE_MGT
@@ -664,6 +688,9 @@ void MEDDLY::node_headers::expandHandleList()
     // Done with GC, now work on expanding
     //
 
+#ifdef MEDDLY_VERIF
+    MEDDLY_VERIF_PROBE(P_HANDLE_EXPAND);
+#endif
     size_t old_size = a_size;
     do {
         a_next_shrink = next_check(a_next_shrink);
@@ -726,6 +753,9 @@ void MEDDLY::node_headers::shrinkHandleList()
         }
     } // for i
 
+#ifdef MEDDLY_VERIF
+    MEDDLY_VERIF_PROBE(P_HANDLE_SHRINK);
+#endif
     size_t old_size = a_size;
     do {
         a_size = prev_size(a_size);
@@ -781,11 +811,17 @@ void MEDDLY::node_headers::lastUnlink(node_handle p)
         //
         // Delete; keep handle until caches are cleared.
         //
+#ifdef MEDDLY_VERIF
+        MEDDLY_VERIF_PROBE(P_NODE_ZOMBIE);
+#endif
         parent.deleteNode(p);
     } else {
         //
         // Optimistic.  Keep unreachables around.
         //
+#ifdef MEDDLY_VERIF
+        MEDDLY_VERIF_PROBE(P_NODE_ORPHAN);
+#endif
 #ifdef TRACK_UNREACHABLE_NODES
         stats.unreachable_nodes++;
 #endif
@@ -798,6 +834,9 @@ void MEDDLY::node_headers::reviveNode(node_handle p)
 {
     // Reclaim an unreachable
     stats.reclaimed_nodes++;
+#ifdef MEDDLY_VERIF
+    MEDDLY_VERIF_PROBE(P_NODE_REVIVED);
+#endif
 #ifdef TRACK_UNREACHABLE_NODES
     stats.unreachable_nodes--;
 #endif
